@@ -14,20 +14,20 @@ open PyModeS PyModeS.Py PyModeS.CRC
 
 /-! ### comparing bit strings -/
 
-theorem toDigit_injective : Function.Injective Bool.toDigit := by
+private theorem toDigit_injective : Function.Injective Bool.toDigit := by
   intro a b; cases a <;> cases b <;> decide
 
-theorem beq_ofBits (a b : Bits) : Val.beq (Val.ofBits a) (Val.ofBits b) = decide (a = b) := by
+private theorem beq_ofBits (a b : Bits) : Val.beq (Val.ofBits a) (Val.ofBits b) = decide (a = b) := by
   simp only [Val.ofBits, Val.beq]
   by_cases hab : a = b
   · simp [hab]
   · have : a.map Bool.toDigit ≠ b.map Bool.toDigit := fun e => hab (List.map_injective_iff.mpr toDigit_injective e)
     simp [hab, this]
 
-theorem pyNe_ofBits (a b : Bits) : pyNe (Val.ofBits a) (Val.ofBits b) = .val (.bool (decide (a ≠ b))) := by
+private theorem pyNe_ofBits (a b : Bits) : pyNe (Val.ofBits a) (Val.ofBits b) = .val (.bool (decide (a ≠ b))) := by
   simp [pyNe, beq_ofBits]
 
-theorem pyEq_ofBits (a b : Bits) : pyEq (Val.ofBits a) (Val.ofBits b) = .val (.bool (decide (a = b))) := by
+private theorem pyEq_ofBits (a b : Bits) : pyEq (Val.ofBits a) (Val.ofBits b) = .val (.bool (decide (a = b))) := by
   simp [pyEq, beq_ofBits]
 
 /-- `ovc10` returns `int(d[14])`; the model returns the same bit as a natural number -/
@@ -38,9 +38,9 @@ theorem ovc10_tie (m : Msg) (h : IsHex m) (hl : m.length = 28) :
   simp [idxR_of_lt, hd, Val.ofNat, b2n]
   cases d[14] <;> simp
 
-theorem lit10 : Val.str ['0', '0', '0', '1', '0', '0', '0', '0'] = Val.ofBits (natToBits 8 0x10) := rfl
-theorem lit30 : Val.str ['0', '0', '1', '1', '0', '0', '0', '0'] = Val.ofBits (natToBits 8 0x30) := rfl
-theorem lit11 : Val.str ['1', '1'] = Val.ofBits [true, true] := rfl
+private theorem lit10 : Val.str ['0', '0', '0', '1', '0', '0', '0', '0'] = Val.ofBits (natToBits 8 0x10) := rfl
+private theorem lit30 : Val.str ['0', '0', '1', '1', '0', '0', '0', '0'] = Val.ofBits (natToBits 8 0x30) := rfl
+private theorem lit11 : Val.str ['1', '1'] = Val.ofBits [true, true] := rfl
 
 theorem is10_tie (m : Msg) (h : IsHex m) (hl : m.length = 28) :
     Gen.bds10.is10 (.str m) = (PyModeS.is10 (hex2binM m) >>= fun b => .val (.bool b)) := by
